@@ -7,6 +7,7 @@ import (
 	"encoding/json"
 	"fmt"
 	"strconv"
+	"time"
 
 	awsv1 "github.com/aws/aws-sdk-go/aws"
 	sessv1 "github.com/aws/aws-sdk-go/aws/session"
@@ -55,7 +56,7 @@ func runC18(t *simrt.Tape, o Opts) Outcome {
 		sdkToRef, refToSdk := false, false
 		switch mode {
 		case 0, 1:
-			h := &hist{w: w, t: t, parts: []string{"a", "part_with_underscore", "7", "b"}[:1+t.Choose(4, "nparts")], maxProc: 2, samePolicyTimes: true}
+			h := &hist{w: w, t: t, parts: c18Parts(t), maxProc: 2, samePolicyTimes: true}
 			h.gen = world.GenOpts{AllowTinyLFU: allowTinyLFU}
 			h.weights = [opKinds]int{opEncrypt: 8, opDecrypt: 4, opOpen: 1, opAdvance: 2, opRevoke: 1, opForeignRotate: 2, opRestart: 1}
 			h.payloadClasses = []int{2, 0, 1, 3, 4}
@@ -336,6 +337,9 @@ func c18Proto(t *simrt.Tape, s *simrt.Sim, w *world.World, st *Stats, formats ma
 	formats["protobuf"] = true
 	payload := w.Payload([]int{2, 0, 3}[t.Choose(3, "payload")])
 	peer := w.Foreign().Write("a", w.Payload(2))
+	// let time pass so that data-key and intermediate-key creation stamps differ (a swapped or
+	// dropped timestamp in the mapping must not hide behind equal values)
+	w.Advance(time.Duration(37+t.Choose(100, "proto.gap")) * time.Second)
 	ms := &memStream{s: s, recvErrAt: -1, sendErrAt: -1}
 	ms.reqs = []*pb.SessionRequest{
 		{Request: &pb.SessionRequest_GetSession{GetSession: &pb.GetSession{PartitionId: "a"}}},
@@ -381,4 +385,23 @@ func c18Proto(t *simrt.Tape, s *simrt.Sim, w *world.World, st *Stats, formats ma
 		}
 		*refToSdk = true
 	}
+}
+
+// c18Parts draws 1-4 partition ids from a pool that includes ids with characters that are special
+// to formatters, encoders and parsers (ids are caller-supplied free text).
+func c18Parts(t *simrt.Tape) []string {
+	pool := []string{"a", "part_with_underscore", "7", "user%40example.com", "100%s", "tenant/7", "spa ce", "ünï-ço∂e", "q\"uote", "b"}
+	n := 1 + t.Choose(4, "nparts")
+	start := t.Choose(len(pool), "part.start")
+	step := []int{1, 3, 7}[t.Choose(3, "part.step")]
+	var out []string
+	seen := map[string]bool{}
+	for i := 0; len(out) < n && i < len(pool); i++ {
+		p := pool[(start+i*step)%len(pool)]
+		if !seen[p] {
+			seen[p] = true
+			out = append(out, p)
+		}
+	}
+	return out
 }
